@@ -50,6 +50,10 @@ pub struct Model<'p> {
     /// firewalls repaired through a RepairFirewall pass in this epoch
     /// (i.e. covered by the firewall set of a root named by the user)
     pub touched: HashSet<u32>,
+    /// firewalls in the firewall set of the root of the request in flight:
+    /// they become `touched` when the engine reports the end of that
+    /// request's firewall-repair pass
+    pub pending: HashSet<u32>,
     /// firewalls re-executed with a changed value outside such a pass and
     /// not covered since: their backward projections are still pending
     pub dirty_since_cover: HashSet<u32>,
@@ -96,6 +100,7 @@ impl<'p> Model<'p> {
             epoch: 0,
             execs: HashMap::new(),
             touched: HashSet::new(),
+            pending: HashSet::new(),
             dirty_since_cover: HashSet::new(),
             exposed: None,
             execs_this_epoch: HashMap::new(),
@@ -145,6 +150,7 @@ impl<'p> Model<'p> {
         self.epoch += 1;
         self.clear_memo();
         self.touched.clear();
+        self.pending.clear();
         self.execs_this_epoch.clear();
         self.refresh_epoch = false;
     }
@@ -231,8 +237,7 @@ impl<'p> Model<'p> {
     fn cover_from(&mut self, r: u32) {
         let mut work: Vec<u32> = self.model_t(r).into_iter().collect();
         while let Some(f) = work.pop() {
-            if self.touched.insert(f) {
-                self.dirty_since_cover.remove(&f);
+            if !self.touched.contains(&f) && self.pending.insert(f) {
                 work.extend(self.model_t(f));
             }
         }
@@ -255,6 +260,19 @@ impl<'p> Model<'p> {
             self.cover_from(root);
         }
     }
+
+    /// the engine reported the end of the outermost firewall-repair pass
+    pub fn pass_end(&mut self) {
+        let p: Vec<u32> = self.pending.drain().collect();
+        for f in p {
+            self.touched.insert(f);
+            self.dirty_since_cover.remove(&f);
+        }
+    }
+
+    /// the user-level request returned; a root that was not on the repair
+    /// path ran no pass, so whatever is still pending was not repaired
+    pub fn request_end(&mut self) { self.pending.clear(); }
 
     fn stale(&self, f: u32) -> bool {
         self.last_exec(f).is_some_and(|r| r.value != self.fs(f))
@@ -315,6 +333,12 @@ impl<'p> Model<'p> {
                 self.serve(*dep, val, &format!("executor of node {node}"))
             }
             Ev::Abort(_) => Ok(()),
+            Ev::Hook(site, a, _) => {
+                if *site == "tfc_pass_end" && *a == 1 {
+                    self.pass_end();
+                }
+                Ok(())
+            }
             Ev::Exit(id) => {
                 let inv = &invs[*id];
                 let n = inv.node;
@@ -330,7 +354,7 @@ impl<'p> Model<'p> {
                 let count = *c;
                 let prev = self.last_exec(n).cloned();
                 let rec = ExecRec {
-                    seq: inv.seq,
+                    seq: inv.seq_exit,
                     epoch: self.epoch,
                     reads: inv.reads.clone(),
                     value: value.clone(),
